@@ -104,6 +104,7 @@ def body(chk):
     obligations(chk, 'C11')
 
 
+@common.part
 def obligations(chk, prop, variants=None):
     """Exploration is partitioned by the first PREFIX_DEPTH linearisation choices and run in parallel workers (fork);
     each worker explores every path below its prefix; the parent merges verdicts and statistics."""
